@@ -15,19 +15,22 @@ NameOK(nm) == /\ nm # <<>> /\ nm[1] \notin {COLON, BANG}
               /\ \A i \in 1..Len(nm) : nm[i] \notin {QUOTE, BS, HASH, EQ} /\ ~IsWS(nm[i])
 Valid(ins) == /\ (ins.label = None \/ NameOK(ins.label)) /\ (ins.out = None \/ NameOK(ins.out))
               /\ (ins.cmd = None \/ NameOK(ins.cmd)) /\ (ins.cmd = None => ins.args = <<>>)
-\* quoting is mandatory iff the argument is empty, contains '#' or white space, or is the first
-\* argument, starts with '=' and there is no output variable (else "cmd =x" reads as an assignment)
-MustQuote(a, first, noOut) == a = <<>> \/ HasWS(a) \/ HasC(a, HASH) \/ (first /\ noOut /\ a[1] = EQ)
+\* Only the space character separates tokens, so quoting is mandatory iff the argument is empty, contains a
+\* space or '#', is the first argument, starts with '=' and there is no output variable (else "cmd =x" reads
+\* as an assignment), or its unquoted form would END with a raw white-space character (TAB written raw, NBSP, ...:
+\* at the end of the line it would be trimmed away).  Other white space may stand raw inside an unquoted token.
+RawWS(c, rawtab) == IsWS(c) /\ c \notin {LF, CR} /\ (c # TAB \/ rawtab)
+MustQuote(a, first, noOut, rawtab) == a = <<>> \/ HasC(a, SP) \/ HasC(a, HASH) \/ (first /\ noOut /\ a[1] = EQ) \/ RawWS(a[Len(a)], rawtab)
 RECURSIVE Esc(_,_)
 Esc(a, rawtab) == IF a = <<>> THEN <<>> ELSE
    (CASE a[1] = BS -> <<BS, BS>> [] a[1] = QUOTE -> <<BS, QUOTE>> [] a[1] = LF -> <<BS, 110>>
       [] a[1] = CR -> <<BS, 114>> [] a[1] = TAB -> (IF rawtab THEN <<TAB>> ELSE <<BS, 116>>)
       [] OTHER -> <<a[1]>>) \o Esc(Tail(a), rawtab)
-Form(a, quoted, rawtab) == IF quoted THEN <<QUOTE>> \o Esc(a, rawtab) \o <<QUOTE>> ELSE Esc(a, FALSE)
+Form(a, quoted, rawtab) == IF quoted THEN <<QUOTE>> \o Esc(a, rawtab) \o <<QUOTE>> ELSE Esc(a, rawtab)
 RECURSIVE RenderArgs(_,_,_,_)
 RenderArgs(args, i, noOut, ch) ==
   IF i > Len(args) THEN <<>>
-  ELSE Spaces(ch.sep[i]) \o Form(args[i], ch.q[i] \/ MustQuote(args[i], i = 1, noOut), ch.rawtab[i])
+  ELSE Spaces(ch.sep[i]) \o Form(args[i], ch.q[i] \/ MustQuote(args[i], i = 1, noOut, ch.rawtab[i]), ch.rawtab[i])
        \o RenderArgs(args, i+1, noOut, ch)
 \* ch = [lead, labsep, eqpre, eqpost, sep, q, rawtab, trail, comment]
 ChoiceOK(ins, ch) == /\ \A i \in 1..Len(ch.lead) : IsWS(ch.lead[i]) /\ ch.lead[i] \notin {LF, CR}
